@@ -166,7 +166,7 @@ def erase_bounds_in_generics(toks, lt, names, ed):
                 j += 1
             bound_toks = toks[i + 1:j]
             if bound_erasable(bound_toks, names):
-                ed.replace(toks[i][2], toks[j - 1][3], '')
+                ed.replace(toks[i][2], toks[j - 1][3], ": 'static" if STATIC_FLAG[0] else '')
             i = j
             continue
         i += 1
@@ -259,6 +259,11 @@ def erase_where(toks, a, b, names, ed):
                 break
             k += 1
         if colon is not None and bound_erasable(toks[colon + 1:e], names):
+            if STATIC_FLAG[0]:
+                # the erased traits all have `'static` as a supertrait: keep that much
+                ed.replace(toks[colon + 1][2], toks[e - 1][3], " 'static")
+                kept += 1
+                continue
             # erase predicate and following comma (if any)
             endpos = toks[e - 1][3]
             if e < len(toks) and toks[e][1] == ',':
@@ -301,15 +306,22 @@ def parse_rules(s):
     return rules
 
 
+STATIC_FLAG = [False]
+
+
 def t3_names(rules):
+    STATIC_FLAG[0] = False
     if 'T3' not in rules:
         return 'none'
     args = rules['T3']
+    if any("'static" in a for a in args):
+        STATIC_FLAG[0] = True
+        args = [a.replace("'static", '') for a in args]
     if not args:
         return None  # all
     out = []
     for a in args:
-        out += [x.strip() for x in a.split(',')]
+        out += [x.strip() for x in a.split(',') if x.strip()]
     return out
 
 
